@@ -1732,3 +1732,135 @@ pub fn gen_hostile(seed: u64) -> Scenario {
     sc.plan.close_after_idle_ms = Some(1000);
     sc
 }
+
+// ---------------------------------------------------------------------------------------------
+// ESTAB lanes (C17, C18): cases are carried as JSON in `Scenario::note`
+// ---------------------------------------------------------------------------------------------
+
+use crate::estab::{EstabCase, HostForm, Peer, StartTlsResp, StdKind, TlsBehaviour};
+
+fn estab_scenario(family: &str, case: &EstabCase) -> Scenario {
+    let mut sc = Scenario::new(family);
+    sc.note = serde_json::to_string(case).unwrap();
+    sc
+}
+
+fn base_case(lane: &str) -> EstabCase {
+    EstabCase {
+        lane: lane.into(),
+        scheme: "ldap".into(),
+        host: HostForm::Ip4,
+        explicit_port: true,
+        sock_name: "sock".into(),
+        encode_all: false,
+        ldapi_port: false,
+        ldapi_empty: false,
+        raw_url: None,
+        starttls: false,
+        no_tls_verify: false,
+        trust_ca: false,
+        conn_timeout_ms: None,
+        std_stream: StdKind::None,
+        sync_api: false,
+        peer: Peer::Accept,
+    }
+}
+
+pub fn gen_estab_url(seed: u64) -> Scenario {
+    let mut r = Rng::new(seed);
+    let mut c = base_case("url");
+    match r.below(100) {
+        0..=39 => c.scheme = "ldap".into(),
+        40..=54 => c.scheme = "ldaps".into(),
+        55..=84 => c.scheme = "ldapi".into(),
+        85..=92 => {
+            c.scheme = "other".into();
+            c.raw_url = Some(r.pick(&["http://127.0.0.1:1/", "ldapx://127.0.0.1:1/", "ldap+tls://localhost/", "cldap://localhost/", "ldapis://%2ftmp%2fx", "file:///tmp/x"]).to_string());
+        }
+        _ => {
+            c.scheme = "unparsable".into();
+            c.raw_url = Some(r.pick(&["ldap://host name/", "ldap://:389/", "ldap://127.0.0.1:99999/", "not a url", "ldapi://%2ftmp%2fa:b", "", "ldap://[::1", "://x"]).to_string());
+        }
+    }
+    c.std_stream = match r.below(10) {
+        0 => StdKind::Tcp,
+        1 => StdKind::Unix,
+        2 => StdKind::Invalid,
+        _ => StdKind::None,
+    };
+    if c.scheme == "ldap" || c.scheme == "ldaps" {
+        c.host = match r.below(20) {
+            0..=9 => HostForm::Ip4,
+            10..=14 => HostForm::Name,
+            15..=16 => HostForm::Ip6,
+            _ => HostForm::Absent,
+        };
+        c.explicit_port = c.host != HostForm::Absent && !r.chance(1, 5);
+        c.starttls = c.scheme == "ldap" && r.chance(1, 4);
+        let needs_tls = c.starttls || c.scheme == "ldaps";
+        c.peer = if needs_tls {
+            match r.below(4) {
+                0 => Peer::Absent,
+                1 => Peer::Stall,
+                _ => Peer::AcceptClose,
+            }
+        } else {
+            match r.below(5) {
+                0 => Peer::Absent,
+                1 => Peer::AcceptClose,
+                _ => Peer::Accept,
+            }
+        };
+        if c.peer == Peer::Stall {
+            c.conn_timeout_ms = Some(*r.pick(&[50, 1000, 30_000]));
+        }
+        if c.host == HostForm::Ip6 && c.std_stream == StdKind::Tcp {
+            c.std_stream = StdKind::None;
+        }
+    } else if c.scheme == "ldapi" {
+        c.sock_name = r.pick(&["sock", "so ck", "s%k", "s\u{f6}ck", "a#b", "a?b", "a+b", "a:b", "x.y-z_0"]).to_string();
+        c.encode_all = r.chance(1, 2);
+        c.ldapi_port = r.chance(1, 7);
+        c.ldapi_empty = r.chance(1, 10);
+        c.peer = if r.chance(1, 5) { Peer::Absent } else { Peer::Accept };
+        c.starttls = r.chance(1, 10);
+    }
+    c.sync_api = c.conn_timeout_ms.is_none() && r.chance(1, 3);
+    estab_scenario("ESTABURL", &c)
+}
+
+pub fn gen_estab_tls(seed: u64) -> Scenario {
+    let mut r = Rng::new(seed);
+    let mut c = base_case("tls");
+    let starttls_scheme = r.chance(3, 5);
+    c.scheme = if starttls_scheme { "ldap".into() } else { "ldaps".into() };
+    c.starttls = starttls_scheme || r.chance(1, 6); // the flag is ignored for ldaps
+    c.host = if r.chance(7, 10) { HostForm::Name } else { HostForm::Ip4 };
+    c.trust_ca = r.chance(3, 5);
+    c.no_tls_verify = r.chance(1, 4);
+    let st = if starttls_scheme {
+        match r.below(100) {
+            0..=44 => StartTlsResp::Success,
+            45..=59 => StartTlsResp::Code(*r.pick(&[1, 2, 8, 10, 13, 49, 52, 53, 80, 118])),
+            60..=67 => StartTlsResp::Garbage,
+            68..=75 => StartTlsResp::Close,
+            76..=83 => StartTlsResp::Silent,
+            _ => StartTlsResp::SuccessPlusInjected,
+        }
+    } else {
+        StartTlsResp::Success
+    };
+    let tls = match r.below(10) {
+        0 => TlsBehaviour::Refuse,
+        1 => TlsBehaviour::Garbage,
+        2 => TlsBehaviour::Silent,
+        _ => TlsBehaviour::Good,
+    };
+    if st == StartTlsResp::Silent || (tls == TlsBehaviour::Silent && matches!(st, StartTlsResp::Success | StartTlsResp::SuccessPlusInjected)) {
+        c.conn_timeout_ms = Some(*r.pick(&[50, 1000, 30_000]));
+    }
+    c.peer = Peer::Tls { starttls: st.clone(), tls };
+    c.std_stream = if r.chance(1, 7) { StdKind::Tcp } else { StdKind::None };
+    c.sync_api = c.conn_timeout_ms.is_none() && st != StartTlsResp::SuccessPlusInjected && r.chance(1, 4);
+    estab_scenario("ESTABTLS", &c)
+}
